@@ -484,8 +484,27 @@ func ruleIndexFromAbsoluteTime(c *Ctx) {
 		}
 		var daily []ast.Node
 		s.walk(func(m ast.Node) bool {
-			if is, ok := m.(*ast.IfStmt); ok && isDailyGuard(is.Cond) {
-				daily = append(daily, is.Body)
+			switch x := m.(type) {
+			case *ast.IfStmt:
+				if isDailyGuard(x.Cond) {
+					daily = append(daily, x.Body)
+				}
+			case *ast.SwitchStmt: // `switch tf { case utils.Day: … }` and the tagless form
+				for _, cl := range x.Body.List {
+					cc, ok := cl.(*ast.CaseClause)
+					if !ok {
+						continue
+					}
+					for _, e := range cc.List {
+						cond := e
+						if x.Tag != nil {
+							cond = &ast.BinaryExpr{X: x.Tag, Op: token.EQL, Y: e}
+						}
+						if isDailyGuard(cond) {
+							daily = append(daily, cc)
+						}
+					}
+				}
 			}
 			return true
 		})
